@@ -125,7 +125,38 @@ func c18Reg(in Fields) Fields {
 	cfg.SSL = ssl
 	conn := client.Client(cfg)
 	errc := make(chan error, 1)
-	go func() { errc <- conn.Connect() }()
+	if in.S(9) == "again" && !ssl {
+		// variant "again": a first connection is made with Connect(), registered and closed; the
+		// OBSERVED registration is the second one, made with ConnectTo(<the server as configured>)
+		// and no password argument: it must offer the same PASS/NICK/USER to the same address
+		e1 := make(chan error, 1)
+		go func() { e1 <- conn.Connect() }()
+		select {
+		case s1 := <-ms.Conns:
+			select {
+			case <-ms.Addrs:
+			default:
+			}
+			select {
+			case <-e1:
+			case <-time.After(10 * time.Second):
+			}
+			rd1 := bufio.NewReaderSize(s1, 1<<16)
+			s1.SetReadDeadline(time.Now().Add(5 * time.Second))
+			for {
+				l, err := rd1.ReadString('\n')
+				if err != nil || strings.HasPrefix(l, "USER") {
+					break
+				}
+			}
+			c18Close(s1, conn)
+		case <-time.After(10 * time.Second):
+			return F("<<NO-CONNECT-1>>")
+		}
+		go func() { errc <- conn.ConnectTo(server) }()
+	} else {
+		go func() { errc <- conn.Connect() }()
+	}
 	var srv net.Conn
 	failed := false
 	select {
@@ -377,6 +408,33 @@ func c18Pings(in Fields) Fields {
 			c18Close(srv, conn)
 		}
 	}
+	if len(in) > 4 && in.S(4) == "busy" && freq > 0 {
+		// a talkative server: a line from it every third of PingFreq for the whole window
+		// (keep-alive is periodic "exactly when PingFreq is positive", whatever else arrives)
+		every := time.Duration(freq) / 3
+		if every < 3*time.Millisecond {
+			every = 3 * time.Millisecond
+		}
+		stopChat := make(chan struct{})
+		defer close(stopChat)
+		go func(srv net.Conn) {
+			for k := 0; ; k++ {
+				select {
+				case <-stopChat:
+					return
+				case <-time.After(every):
+				}
+				srv.SetWriteDeadline(time.Now().Add(2 * time.Second))
+				line := ":irc.example NOTICE vbot :chatter\r\n"
+				if k%4 == 3 {
+					line = "PING :srv-" + fmt.Sprint(k) + "\r\n"
+				}
+				if _, err := srv.Write([]byte(line)); err != nil {
+					return
+				}
+			}
+		}(srv)
+	}
 	rd := bufio.NewReaderSize(srv, 1<<16)
 	count, wellformed := 0, true
 	srv.SetReadDeadline(start.Add(window))
@@ -553,6 +611,16 @@ func c18Gen(r *Rand, tier string, scale int, emit func(in Fields)) {
 			}
 		}
 	}
+	// the observed registration is the client's second one, through ConnectTo(server)
+	for _, server := range []string{"irc.example", "irc.example:7000", "10.1.2.3"} {
+		for _, pass := range []string{"pw", "", "p w :x"} {
+			for _, neg := range []bool{false, true} {
+				in := c18RegInput("vbot", "vident", "v name", pass, neg, false, server, 0)
+				in[9] = []byte("again")
+				ins = append(ins, in)
+			}
+		}
+	}
 	for _, server := range []string{"h", "[::1]", "::1", "host:"} {
 		in := c18RegInput("vbot", "vident", "v name", "", false, false, server, 0)
 		in[9] = []byte("dial")
@@ -601,6 +669,8 @@ func c18Gen(r *Rand, tier string, scale int, emit func(in Fields)) {
 		}
 		// the measured connection is the client's second or third one
 		ins = append(ins, F("pings", int64(30*time.Millisecond), window+i, 1+i%2), F("pings", int64(0), window+i, 1))
+		// the same against a server that keeps talking
+		ins = append(ins, F("pings", int64(30*time.Millisecond), window+i, 0, "busy"), F("pings", int64(45*time.Millisecond), window+i, 1, "busy"))
 	}
 	// parallel execution (own client and socket per case), emitted in order
 	workers := runtime.NumCPU()
